@@ -130,6 +130,21 @@ TEMPLATES = {
         [],
         ["X", "FIN", "EndA", "X"],
     ),
+    # the same flow activates the same flow twice (reference counting must not outlive the single activator)
+    "double-activation": (
+        "flow main\n  start fa\n  match Never()\n\n"
+        "flow fa\n  activate fz\n  match Mid()\n  activate fz\n  match EndA()\n\n"
+        "flow fz\n  match Tick()\n  start FzAction() as $z\n  match Tock()\n",
+        [],
+        ["Mid", "EndA", "Tick", "Tock", "FIN", "Mid", "Tick"],
+    ),
+    "double-activation-now": (
+        "flow main\n  start fa\n  match Never()\n\n"
+        "flow fa\n  activate fz\n  activate fz\n  match EndA()\n  abort\n\n"
+        "flow fz\n  match Tick()\n  send Tack()\n",
+        [],
+        ["EndA", "Tick", "Tick", "EndA"],
+    ),
     # nested: child of an awaited flow with an action; the grand parent ends
     "nested-await": (
         "flow main\n  start fa\n  match Never()\n\n"
